@@ -10,6 +10,7 @@ REGISTRY = {
     "C07": "engines.extendsplit_checks",
     "C12": "engines.function_sim",
     "C13": "engines.stop_checks",
+    "C15": "engines.uq_sim",
     "C17": "engines.de_reuse_sim",
     "C18": "engines.dataset_sim",
     "C19": "engines.classification_sim",
